@@ -28,6 +28,8 @@ CONSTANTS MaxH,      \* (A) largest local head number explored
           RawCap,    \* (B) capacity of the rawBatches channel (10)
           WarmCap,   \* (B) capacity of the warmedUp channel (2048)
           Slack,     \* (B) set of k: download starts from an ancestor k below the true one (0 = exact)
+          FetchListens, \* (B) the fetch stage runs on the group context: blocked on a full rawBatches channel it returns when the
+                     \*     group is cancelled (TRUE in the code; FALSE only in a negative configuration)
           DecListens \* (B) the decoder stage selects on the group context while it is blocked on the warmedUp channel
                      \*     (TRUE in the code; FALSE only in the negative configuration that shows BTerminates is not vacuous)
 
@@ -164,7 +166,9 @@ BStart(localStore, localBest, ancestor) == BStartWith(localStore, localBest, anc
 \*   [t |-> "blocks", bs |-> <<...>>] | [t |-> "undecodable"] | [t |-> "toolarge"] | [t |-> "disconnect"]
 \* fetchRawBlockBatches: one round trip
 Fetch(ans) ==
-  /\ status = "run" /\ ~fetchDone /\ Len(rawQ) < RawCap
+  \* the fetcher asks, gets the answer and THEN waits for room in rawBatches: the batch in its hand is the last element
+  \* of rawQ here, so rawQ may hold RawCap + 1 batches (10 in the channel, 1 in the blocked send)
+  /\ status = "run" /\ ~fetchDone /\ Len(rawQ) <= RawCap
   /\ reqs' = reqs + 1
   /\ CASE ans.t = "disconnect" ->                    \* Call: <-doneCh
             /\ status' = "disconnected" /\ dropped' = TRUE
@@ -248,6 +252,8 @@ BSilent == DecTake \/ DecBlock \/ DecThrottle \/ DecDone \/ Handle \/ Finish
 \* (more than WarmCap decoded blocks behind a block the handler refused), the handler after its current block.
 \* download() returns only when all three have returned (g.Wait()).
 Stages == {"fetch", "dec", "handle"}
+\* non-empty answers the scripted peer of SpecB still has from `from` on (0 outside SpecB)
+PeerBatchesLeft == IF from > scen.R THEN 0 ELSE ((scen.R - from) \div MaxBatch) + 1
 RECURSIVE QueuedBlocks(_)
 QueuedBlocks(q) == IF q = <<>> THEN 0 ELSE Len(Head(q).bs) + QueuedBlocks(Tail(q))
 DecRemaining == (IF dec = None THEN 0 ELSE Len(dec.bs) - dec.i + 1) + QueuedBlocks(rawQ)
@@ -255,6 +261,9 @@ StageExit(sg) ==
   /\ status # "run" /\ sg \in live
   \* a decoder that does not listen to the cancel returns only if what it still has to push fits into the channel
   /\ sg = "dec" => (DecListens \/ DecRemaining <= WarmCap - Len(warmQ))
+  \* a fetcher that does not listen to the cancel keeps asking: it returns only if the batches the peer still has fit
+  \* into the rawBatches channel (then it drains the peer, closes the channel and returns)
+  /\ sg = "fetch" => (FetchListens \/ fetchDone \/ PeerBatchesLeft <= RawCap + 1 - Len(rawQ))
   /\ live' = live \ {sg}
   /\ UNCHANGED varsB
 Returned == status # "run" /\ live = {}
